@@ -995,6 +995,20 @@ def fam_tok(prop, tier):
              "run(try_join_async! { gate(0, 1, vr.first_mut().ok_or(0u8)), gate(0, 2, sr.last_mut().ok_or(0u8)), map => |x: &mut u8, y: &mut u8| { core::mem::swap(x, y); 1u8 } }, 4).0",
              "Option<Result<u8, u8>>", "r == Some(Ok(1)) && v == [20, 2] && s == [10, a]"),
         ]
+        # operands that are NAMED closures (paths), FnOnce (they consume a move-only capture) or FnMut (they borrow the
+        # caller's stack mutably): an operand is moved into its documented call, the macro adds no `Fn` bound
+        extra += [
+            ("named_fnonce_then", "    let tok = Tok::new(a);\n    let finish = move |v: u8| { let t = tok; v.wrapping_add(t.0) };\n",
+             "join! { 1u8 -> finish }", "u8", "r == a.wrapping_add(1)"),
+            ("named_fnmut_then", "    let mut seen = 0u8;\n    let mut record = |v: u8| { seen = v; v };\n",
+             "try_join! { Some(2u8) |> |v: u8| v + 1, 5u8 -> record -> Some }", "Option<(u8, u8)>", "r == Some((3, 5)) && seen == 5"),
+            ("named_fnmut_map_and_inspect", "    let mut cnt = 0u8;\n    let mut seen = 0u8;\n    let bump = |v: u8| { cnt += 1; v.wrapping_add(1) };\n    let look = |v: &Option<u8>| { let _ = v; };\n",
+             "join! { Some(a) |> bump ?? look ~|> |v: u8| { seen = v; v } }", "Option<u8>", "r == Some(a.wrapping_add(1)) && cnt == 1 && seen == a.wrapping_add(1)"),
+            ("named_fnonce_or_else_and_then", "    let t1 = Tok::new(4);\n    let t2 = Tok::new(a);\n    let fallback = move || { let t = t1; Some(t.0) };\n    let next = move |v: u8| { let t = t2; Some(v.wrapping_add(t.0)) };\n",
+             "join! { None::<u8> <= fallback => next }", "Option<u8>", "r == Some(a.wrapping_add(4))"),
+            ("named_fnonce_then_async", "    let tok = Tok::new(a);\n    let finish = move |f: Gate<u8>| { let t = tok; then_gate(f, 0, 3, t.0) };\n",
+             "run(join_async! { gate(0, 1, 1u8) -> finish }, 4).0", "Option<u8>", "r == Some(a.wrapping_add(1))"),
+        ]
         for (name, pre, prog, rty, ok) in extra:
             b = "    let a: u8 = kani::any();\n" + pre
             b += "    let r: %s = %s;\n    assert!(%s);\n" % (rty, prog, ok)
@@ -1295,6 +1309,25 @@ def _let_harness(prop, mac, ds, mask, own=False, raw=False):
     return Harness(hn, harness_fn(hn, b, unwind=(3 if is_async else None)), prog, note="profile %s, named branches mask %s" % (ds, bin(mask)))
 
 
+def _let_macro_param_harnesses(prop):
+    """the branch name reaches the macro through a `macro_rules!` parameter (a project-local wrapper around join!): the
+    name the steps bind and the name the generated code reads must be the same identifier, hygiene included"""
+    out = []
+    for mac, W, rty, exp in [("join", "Some", "(Option<u8>, Option<u8>)", "(Some(a.wrapping_add(1)), Some(a.wrapping_add(3)))"),
+                             ("try_join", "Some", "Option<(u8, u8)>", "Some((a.wrapping_add(1), a.wrapping_add(3)))")]:
+        b = "    let a: u8 = kani::any();\n"
+        b += ("    macro_rules! wrapped {\n        ($n:ident, $v:expr) => {\n            %s! {\n                let $n = %s($v) ~|> |x: u8| x.wrapping_add(1),\n"
+              "                let mut other = %s(1u8) ~|> { let snap: u8 = $n.clone().unwrap_or(77); move |x: u8| x.wrapping_add(snap) } ~|> { let snap: u8 = $n.clone().unwrap_or(77); move |x: u8| x.wrapping_add(snap).wrapping_sub(a) },\n"
+              "            }\n        };\n    }\n") % (mac, W, W)
+        b += "    let r: %s = wrapped!(first, a);\n" % rty
+        # step 1: other = 1 + a ; first = a + 1 ; step 2: other = (1 + a) + (a + 1) - a = a + 2 ... computed below
+        b += "    let exp: %s = %s;\n" % (rty, exp.replace("a.wrapping_add(3)", "1u8.wrapping_add(a).wrapping_add(a.wrapping_add(1)).wrapping_sub(a)"))
+        b += "    assert!(r == exp, \"C12: a name passed through a macro_rules! parameter did not expose its branch's latest step result\");\n"
+        hn = "%s_let_macro_param_%s" % (prop.lower(), mac)
+        out.append(Harness(hn, harness_fn(hn, b), "wrapped!(first, a) => %s! { let $n = .. }" % mac, note="name passed through a macro_rules! parameter"))
+    return out
+
+
 def _let_loose_harnesses(prop):
     """naming a branch must not change its value, also when the initial value binds looser than a method call"""
     out = []
@@ -1510,7 +1543,7 @@ def _transpose_harness(prop, ds):
 
 
 # + both operands of fold / try_fold as blocks: the captures that read names are block operands, every one of them must be defined
-FAMILIES["C12"] = [fam_let, lambda p, t: _let_loose_harnesses(p), lambda p, t: [h for h in _capture_special(p) if "fold2" in h.name]]
+FAMILIES["C12"] = [fam_let, lambda p, t: _let_loose_harnesses(p), lambda p, t: _let_macro_param_harnesses(p), lambda p, t: [h for h in _capture_special(p) if "fold2" in h.name]]
 FAMILIES["C13"] = [fam_handler, lambda p, t: _async_lazy_harnesses(p)]
 FAMILIES["C09"] = [fam_async, lambda p, t: _async_lazy_harnesses(p)]
 FAMILIES["C16"] = [fam_options]
